@@ -1,4 +1,109 @@
 import TsRsVerif.Model.Export
+import TsRsVerif.Lemmas.DfsLemmas
+import TsRsVerif.Lemmas.ExportLemmas
+/-!
+# C11 — an export writes exactly the root's and its dependencies' files
+
+`exportRec` = `export_recursive` (depth-first walk with the `seen` set), `exportInto` = `export_into`.
+A type's file is written exactly when the walk adds the type to `seen` (that is where `export_into`
+is called), so "which files are written" is "which types are visited".
+-/
 namespace TsRs
-theorem C11_placeholder : True := trivial
+open Text Export Fs
+
+/-- **the walk visits exactly the exportable types reachable from the root** — for every
+dependency graph (cycles, shared dependencies, any size), whenever the export succeeds. -/
+theorem C11_visits_exactly_reachable (u : Universe) (fuel : Nat) (w w' : World) (dir : Str) (i : Nat)
+    (seen' : List Nat) (h : exportRec u fuel w [] dir i = some (w', seen', .ok)) :
+    ∀ j, j ∈ seen' ↔ Reach u i j := by
+  obtain ⟨hinv, hi⟩ := exportRec_inv u (Reach u i) (fun n d hn hd => Reach.step hn hd)
+    fuel w [] dir i w' seen' Reach.refl h
+  intro j
+  constructor
+  · intro hj
+    rcases hinv.sound j hj with h0 | h0
+    · simp at h0
+    · exact h0
+  · exact reach_subset u i seen' hi (fun n hn d hd => hinv.closed n hn (by simp) d hd) j
+
+/-- nothing is visited twice and nothing already seen is exported again -/
+theorem C11_seen_is_skipped (u : Universe) (fuel : Nat) (w : World) (seen : List Nat) (dir : Str) (i : Nat)
+    (h : i ∈ seen) : exportRec u (fuel + 1) w seen dir i = some (w, seen, .ok) := by
+  simp [exportRec, h]
+
+/-- **one export step changes at most one file location** (and creates directories): every other
+regular file is exactly what it was. -/
+theorem C11_step_touches_one_file (w w' : World) (path name text : Str)
+    (h : exportAndMerge w path name text = (w', .ok)) :
+    ∃ l, ∀ l' c, l' ≠ l → (w.fs.lookup l' = some (.file c) ↔ w'.fs.lookup l' = some (.file c)) := by
+  rcases exportAndMerge_cases w path name text with ⟨h1, _⟩ | h1 | h1 | ⟨h1, _⟩ | ⟨l, c, _, _, h1⟩
+  · rw [h1] at h; simp at h
+  · rw [h1] at h; simp at h
+  · rw [h1] at h; simp at h; subst h; exact ⟨[], fun _ _ _ => Iff.rfl⟩
+  · rw [h1] at h; simp at h
+  · rw [h1] at h
+    simp only [Prod.mk.injEq, and_true] at h
+    subst h
+    refine ⟨l, fun l' c' hne => ?_⟩
+    simp only [lookup_set]
+    by_cases h0 : l' = []
+    · subst h0; simp [lookup]
+    · simp [h0, hne]
+
+/-- the location that does change holds a regular file afterwards (never a directory) -/
+theorem C11_step_writes_a_file (w w' : World) (path name text : Str)
+    (hreg : regGet w.reg (regKey path) = none)
+    (h : exportAndMerge w path name text = (w', .ok)) :
+    ∃ l, w'.fs.lookup l = some (.file text) := by
+  rcases exportAndMerge_cases w path name text with ⟨h1, hp⟩ | h1 | h1 | ⟨h1, _⟩ | ⟨l, c, hp, hl, h1⟩
+  · rw [h1] at h; simp at h
+  · rw [h1] at h; simp at h
+  · -- `(w, ok)` without a registry entry is impossible: the first write always changes the registry
+    exfalso
+    unfold exportAndMerge at h1
+    cases hpo : w.poisoned with
+    | true => simp [hpo] at h1
+    | false =>
+      simp only [hpo, hreg] at h1
+      cases hc : w.fs.fileCreate path text with
+      | none => simp [hc] at h1
+      | some fs' =>
+        simp only [hc, Bool.false_eq_true, if_false, Prod.mk.injEq, and_true] at h1
+        have : (regInsert w.reg (regKey path) name) = w.reg := by
+          have := congrArg World.reg h1; simpa using this
+        simp [regInsert, hreg] at this
+  · rw [h1] at h; simp at h
+  · -- first write: the content is the generated text
+    unfold exportAndMerge at h
+    simp only [hp, hreg, Bool.false_eq_true, if_false] at h
+    cases hc : w.fs.fileCreate path text with
+    | none => simp [hc] at h
+    | some fs' =>
+      simp only [hc, Prod.mk.injEq, and_true] at h
+      subst h
+      unfold Fs.fileCreate at hc
+      cases hres : w.fs.resolve path with
+      | none => simp [hres] at hc
+      | some l0 =>
+        cases l0 with
+        | nil => simp [hres] at hc
+        | cons a as =>
+          simp only [hres] at hc
+          split at hc
+          · simp at hc
+          · split at hc
+            · simp at hc
+            · simp only [Option.some.injEq] at hc
+              subst hc
+              exact ⟨a :: as, by simp [lookup_set]⟩
+
+/-! ## non-vacuity: a cyclic graph with a shared dependency and a non-exportable node -/
+example :
+    let mk : Str → List Nat → TyInfo := fun n ds => { ident := n, outputPath := some (n ++ ".ts".toList), text := .ok ("// n\n\nexport type ".toList ++ n ++ " = 1;\n".toList), deps := ds }
+    let u : Universe := [mk "A".toList [1, 2, 3], mk "B".toList [0, 2], mk "C".toList [],
+                         { ident := "number".toList, outputPath := none, text := .error .cannotBeExported, deps := [] }, mk "Unreached".toList [0]]
+    let w : World := { fs := { nodes := [(["w".toList], .dir)], cwd := ["w".toList] }, reg := [] }
+    (exportRec u 6 w [] "./bindings".toList 0).map (fun r => (r.2.1, r.2.2)) = some ([2, 1, 0], Outcome.ok) := by
+  decide +kernel
+
 end TsRs
